@@ -9,6 +9,7 @@ import (
 	"golang.org/x/tools/go/ssa"
 	"os"
 	"path/filepath"
+	"regexp"
 	"sort"
 	"strings"
 	"time"
@@ -150,6 +151,10 @@ func (c *Ctx) finish(onlyKey string) int {
 			discharged++
 		default:
 			if _, ok := known[o.Key]; ok {
+				knownHit = append(knownHit, o)
+			} else if kf, ok := knownByBareFunc(known, o.Key); ok {
+				// the same construct after a method <-> function conversion of the enclosing function
+				known[o.Key] = kf
 				knownHit = append(knownHit, o)
 			} else {
 				viol = append(viol, o)
@@ -307,4 +312,25 @@ func (c *Ctx) printFailKeys() {
 			fmt.Printf("FAILKEY %s\n", o.Key)
 		}
 	}
+}
+
+var recvInKey = regexp.MustCompile(`\(\*?([\w./-]+)\.\w+\)\.`)
+
+// bareFuncKey rewrites `(*pkg/path.Type).Method` / `(pkg/path.Type).Method` inside an obligation
+// key to `pkg/path.Method`: the key of the same construct if the method were a plain function.
+func bareFuncKey(k string) string { return recvInKey.ReplaceAllString(k, "$1.") }
+
+// knownByBareFunc: a listed finding whose key differs from k only by the receiver of the
+// enclosing function (exactly one such finding).
+func knownByBareFunc(known map[string]Finding, k string) (Finding, bool) {
+	nk := bareFuncKey(k)
+	var hit Finding
+	n := 0
+	for fk, f := range known {
+		if fk != k && bareFuncKey(fk) == nk {
+			hit = f
+			n++
+		}
+	}
+	return hit, n == 1
 }
